@@ -22,6 +22,10 @@ pub enum ArOp {
     Add,
     Sub,
     Mul,
+    /// integer division truncates toward zero (as the engine documents); division by zero is an error
+    Div,
+    /// remainder with the sign of the dividend
+    Mod,
 }
 
 #[derive(Debug, Clone, PartialEq, Serialize, Deserialize)]
@@ -147,6 +151,18 @@ pub fn eval(e: &E, row: &[Val]) -> Result<Val, String> {
                     ArOp::Add => p + q,
                     ArOp::Sub => p - q,
                     ArOp::Mul => p * q,
+                    ArOp::Div => {
+                        if *q == 0 {
+                            return Err("division by zero".into());
+                        }
+                        p / q
+                    }
+                    ArOp::Mod => {
+                        if *q == 0 {
+                            return Err("division by zero".into());
+                        }
+                        p % q
+                    }
                 }),
                 _ => {
                     let (p, q) = (num(&x).ok_or("arith on non-number")?, num(&y).ok_or("arith on non-number")?);
@@ -154,6 +170,8 @@ pub fn eval(e: &E, row: &[Val]) -> Result<Val, String> {
                         ArOp::Add => p + q,
                         ArOp::Sub => p - q,
                         ArOp::Mul => p * q,
+                        ArOp::Div => p / q,
+                        ArOp::Mod => p % q,
                     })
                 }
             }
@@ -220,7 +238,7 @@ fn prec(e: &E) -> u8 {
         E::Not(..) => 3,
         E::Cmp(..) | E::IsNull(..) | E::Between(..) | E::In(..) | E::Like(..) => 4,
         E::Ar(_, ArOp::Add | ArOp::Sub, _) => 5,
-        E::Ar(_, ArOp::Mul, _) => 6,
+        E::Ar(_, ArOp::Mul | ArOp::Div | ArOp::Mod, _) => 6,
         E::Neg(..) => 7,
         E::Col(..) | E::Lit(..) => 8,
     }
@@ -261,6 +279,8 @@ pub fn render(e: &E) -> String {
             ArOp::Add => format!("{} + {}", wrap(a, 5), wrap(b, 6)),
             ArOp::Sub => format!("{} - {}", wrap(a, 5), wrap(b, 6)),
             ArOp::Mul => format!("{} * {}", wrap(a, 6), wrap(b, 7)),
+            ArOp::Div => format!("{} / {}", wrap(a, 6), wrap(b, 7)),
+            ArOp::Mod => format!("{} % {}", wrap(a, 6), wrap(b, 7)),
         },
         E::Neg(a) => format!("-{}", wrap(a, 7)),
     }
